@@ -57,14 +57,29 @@ def class_twins(chk, prog):
         f = prog.func(QUAT + "::QuaternionArray.to_angles")
         g = prog.func(QUAT + "::Quaternion.to_angles")
         chk.touch(f)
-        chk.ob("TWIN.class", "%s [%s]" % (f.ref, tag), "QuaternionArray.to_angles()[i] == Quaternion(row i).to_angles() [%s]" % tag,
-               lambda arr=arr, rows=rows, it=it, f=f, g=g: all_of(*[eq(to_obj(it.run(f, [], self_obj=arr))[i], it.run(g, [], self_obj=rows[i]), "to_angles[%d]" % i) for i in range(2)]),
-               module=QUAT, function="QuaternionArray.to_angles", construct="to_angles [%s]" % tag, line=f.node.lineno)
-        # to_DCM needs versors: use unit rows
+        # to_angles / to_DCM need versors: use unit rows
         ua, ub = unit_syms("tu"), unit_syms("tv")
         if not sv:
             ua, ub = np.roll(ua, -1), np.roll(ub, -1)
         arr_u = quat_obj(it, np.vstack([ua, ub]), scalar_vector=sv, cls="QuaternionArray")
+
+        def angles_twin(arr_u=arr_u, ua=ua, ub=ub, it=it, f=f, g=g, sv=sv):
+            from sa.symeval import Interp as _I
+            mark = len(_I.GATE_LOG)
+            res = [eq(to_obj(it.run(f, [], self_obj=arr_u))[i], it.run(g, [], self_obj=quat_obj(it, r_, scalar_vector=sv)), "to_angles[%d]" % i) for i, r_ in enumerate((ua, ub))]
+            # the two copies must also make the same tolerance tests: a band of attitudes special-cased by one copy only is a row-wise disagreement on that band
+            gates = {}
+            for fn_, lhs_, rhs_, tol_, _ans in _I.GATE_LOG[mark:]:
+                gates.setdefault(fn_.rsplit("::", 1)[-1], set()).add((str(lhs_), str(rhs_), tuple(tol_)))
+            ga, gs = gates.get("QuaternionArray.to_angles", set()), gates.get("Quaternion.to_angles", set())
+            if ga != gs:
+                only = sorted(ga ^ gs)[0]
+                who = "QuaternionArray.to_angles" if only in ga else "Quaternion.to_angles"
+                res.append((False, "only %s makes the tolerance test isclose(%s, %s): on the attitudes inside that band it returns a special-cased answer the other class "
+                                   "does not give" % (who, only[0][:60], only[1]), None))
+            return all_of(*res)
+        chk.ob("TWIN.class", "%s [%s]" % (f.ref, tag), "QuaternionArray.to_angles()[i] == Quaternion(row i).to_angles() [%s], same tolerance tests in both" % tag,
+               angles_twin, module=QUAT, function="QuaternionArray.to_angles", construct="to_angles [%s]" % tag, line=f.node.lineno)
         f = prog.func(QUAT + "::QuaternionArray.to_DCM")
         g = prog.func(QUAT + "::Quaternion.to_DCM")
         chk.ob("TWIN.class", "%s [%s]" % (f.ref, tag), "QuaternionArray.to_DCM()[i] == Quaternion(row i).to_DCM() [%s]" % tag,
@@ -343,6 +358,7 @@ def dispatch_rule(chk, prog):
         chk.ob("DISPATCH", "%s::%s[unknown]" % (ref, route), "an unknown method name raises ValueError", rej, module=f.module.rel, function=f.qname, construct="unknown method rejected via %s" % route)
 
 
+PER_ROW_SITES = {"FQA": 2, "AQUA": 2}      # batch routines with two N-sample arms (with / without magnetometer), each a loop over estimate(); all others have one
 TWIN_PROVED = {"Tilt", "SAAM"}       # vectorised N-sample arms compared with estimate() by TWIN.estimator
 
 
@@ -405,9 +421,10 @@ def rowwise_rule(chk, prog):
             if body is None:
                 continue
             per_row += sum(1 for b in body for call in ast.walk(b) if isinstance(call, ast.Call) and ast.unparse(call.func) == "self.estimate")
-        if per_row == 0:
-            chk.error("ROWWISE.route: %s._compute_all has no per-row self.estimate(...) call any more: its N-sample arm is a separate implementation that is not among the "
-                      "routines proved equal to estimate() (%s) - cannot decide" % (cls.name, ", ".join(sorted(TWIN_PROVED))))
+        want = PER_ROW_SITES.get(cls.name, 1)
+        if per_row < want:
+            chk.error("ROWWISE.route: %s._compute_all has %d per-row self.estimate(...) call site(s), %d confirmed by hand: an N-sample arm is now a separate implementation that "
+                      "is not among the routines proved equal to estimate() (%s) - cannot decide" % (cls.name, per_row, want, ", ".join(sorted(TWIN_PROVED))))
         else:
             chk.record("ROWWISE.route", f.ref, "the N-sample arm produces its rows through self.estimate (%d per-row call sites)" % per_row)
     if n < 6:
